@@ -5,7 +5,7 @@ from xvlib import *
 def hm_consts(**kw):
     c = {'Threads': '<-ThreadsDef', 'MThreads': '<-ThreadsDef', 'Locs': '<-LocsDef', 'InitVal': '<-InitValDef', 'AbsStep': '<-SMStep',
          'Ord': '<-OrdCode', 'Weak': False, 'NT': 2, 'NNodes': 3, 'Keys0Set': '={1}', 'KeySet': '={1, 2}', 'MaxOps': 2, 'AllowIter': False,
-         'RecheckPrev': True, 'MarkCheck': True, 'IterRetry': True}
+         'RecheckPrev': True, 'MarkCheck': True, 'IterRetry': True, 'KeepCurGuard': True}
     c.update(kw)
     return c
 
@@ -24,6 +24,10 @@ def run_models(ctx, pid):
             lambda: tlc_mc(ctx, 'hm_2t_2ops', 'HarrisMichael', hm_consts(), invariants=INV, view='mcview', workers=8, must_cover=ACT_OPS),
             lambda: tlc_mc(ctx, 'hm_2t_keys13', 'HarrisMichael', hm_consts(Keys0Set='={1, 3}', KeySet='={2, 3}', NNodes=4), invariants=INV, view='mcview', workers=8, tmo=1200),
             lambda: tlc_mc(ctx, 'hm_toggle_nomarkcheck', 'HarrisMichael', hm_consts(MarkCheck=False), invariants=INV, view='mcview', expect='violation', workers=6),
+            # the guard on the successor dropped before the insertion CAS (harris_michael_hash_map::do_get_or_emplace_lazy before fix 25944dc): the
+            # successor is destroyed, its id is handed to a new node that becomes prev's successor, the CAS succeeds at the wrong position (ABA)
+            lambda: tlc_mc(ctx, 'hm_toggle_drop_successor_guard', 'HarrisMichael', hm_consts(Keys0Set='={1, 4}', KeySet='={2, 3, 4}', NNodes=3, MaxOps=3, KeepCurGuard=False),
+                           invariants=INV, view='mcview', expect='violation', workers=10, tmo=900),
         ]
         if not q:
             jobs += [lambda: tlc_mc(ctx, 'hm_3t', 'HarrisMichael', hm_consts(NT=3, MaxOps=1, NNodes=4), invariants=INV, view='mcview', workers=12, tmo=3000, heap='24g'),
